@@ -233,6 +233,7 @@ type tCfg struct {
 	d, d2   int // microseconds
 	n       int
 	a, b    int
+	step    int // RangeWithStepAndInterval (integral bounds and step)
 	gaps    []int
 	term    string
 	slowK   int
@@ -244,7 +245,7 @@ type tCfg struct {
 func parseTCfg(c *Case) tCfg {
 	atoi := func(s string) int { v, _ := strconv.Atoi(s); return v }
 	cfg := tCfg{op: c.get("op", "?"), d: atoi(c.get("d", "0")), d2: atoi(c.get("d2", "0")), n: atoi(c.get("n", "0")),
-		a: atoi(c.get("a", "0")), b: atoi(c.get("b", "0")), gaps: parseInts(c.get("gaps", "-")), term: c.get("term", "-"),
+		a: atoi(c.get("a", "0")), b: atoi(c.get("b", "0")), step: atoi(c.get("step", "1")), gaps: parseInts(c.get("gaps", "-")), term: c.get("term", "-"),
 		slowK: -1, cutKind: "-"}
 	if s := c.get("slow", "-"); s != "-" {
 		p := strings.SplitN(s, ":", 2)
@@ -265,7 +266,7 @@ var timedSourceOps = map[string]bool{"Delay": true, "DelayEach": true, "Timeout"
 	"SampleTime": true, "BufferWithTime": true, "BufferWithTimeOrCount": true}
 
 // operators that watch the subscription context (operator_creation.go:67,98,146 and everything fed by Interval)
-var timedWatchesCtx = map[string]bool{"Timer": true, "Interval": true, "IntervalWithInitial": true, "RangeWithInterval": true,
+var timedWatchesCtx = map[string]bool{"Timer": true, "Interval": true, "IntervalWithInitial": true, "RangeWithInterval": true, "RangeWithStepAndInterval": true,
 	"SampleTime": true, "BufferWithTime": true, "BufferWithTimeOrCount": true}
 
 const timedGuard = 3 * time.Second
@@ -333,6 +334,17 @@ func runTimed(c *Case) string {
 	case "RangeWithInterval":
 		subscribe = func() ro.Subscription {
 			return ro.RangeWithInterval(int64(cfg.a), int64(cfg.b), d).SubscribeWithContext(ctx, timedObserver(rec, renderInt64N))
+		}
+	case "RangeWithStepAndInterval":
+		// integral bounds and step: every value is an integer and float arithmetic on them is exact
+		subscribe = func() ro.Subscription {
+			return ro.RangeWithStepAndInterval(float64(cfg.a), float64(cfg.b), float64(cfg.step), d).SubscribeWithContext(ctx,
+				timedObserver(rec, func(v float64) string {
+					if v != float64(int64(v)) {
+						return "N?" // not integral: unparsable on purpose
+					}
+					return renderInt64N(int64(v))
+				}))
 		}
 	default:
 		return "unsupported"
@@ -402,7 +414,7 @@ func runTimed(c *Case) string {
 		mustEnd = true
 	case cfg.op == "Timer" && cfg.cutKind == "-":
 		mustEnd = true
-	case cfg.op == "RangeWithInterval" && cfg.cutKind == "-":
+	case (cfg.op == "RangeWithInterval" || cfg.op == "RangeWithStepAndInterval") && cfg.cutKind == "-":
 		mustEnd = true
 	}
 	if mustEnd {
@@ -654,6 +666,13 @@ func genTimed(tier string, seed int64, only string) []*Case {
 		add("RangeWithInterval", "d", ds, "a", "5", "b", "2", "cut", "-")
 		add("RangeWithInterval", "d", ds, "a", "4", "b", "4", "cut", "-")
 		add("RangeWithInterval", "d", ds, "a", "0", "b", "9", "cut", "out:"+itoa(3*d+d/2))
+		// spans that are / are not a multiple of the step, a step larger than the span, descending, empty
+		add("RangeWithStepAndInterval", "d", ds, "a", "0", "b", "6", "step", "2", "cut", "-")
+		add("RangeWithStepAndInterval", "d", ds, "a", "0", "b", "5", "step", "2", "cut", "-")
+		add("RangeWithStepAndInterval", "d", ds, "a", "0", "b", "1", "step", "2", "cut", "-")
+		add("RangeWithStepAndInterval", "d", ds, "a", "7", "b", "0", "step", "3", "cut", "-")
+		add("RangeWithStepAndInterval", "d", ds, "a", "4", "b", "4", "step", "3", "cut", "-")
+		add("RangeWithStepAndInterval", "d", ds, "a", "0", "b", "9", "step", "2", "cut", "out:"+itoa(3*d+d/2))
 	}
 
 	// ---- seeded random
@@ -733,6 +752,7 @@ func genTimed(tier string, seed int64, only string) []*Case {
 				rc = "cancel:" + itoa(r.Intn(3*d))
 			}
 			add("RangeWithInterval", "d", itoa(d), "a", itoa(a), "b", itoa(b), "cut", rc)
+			add("RangeWithStepAndInterval", "d", itoa(d), "a", itoa(a), "b", itoa(a+r.Intn(15)-7), "step", itoa(1+r.Intn(4)), "cut", rc)
 		}
 	}
 	return out
